@@ -104,6 +104,7 @@ type c49Node struct {
 	vpn     netip.Addr
 	udp     netip.AddrPort
 	stopped atomic.Bool
+	stalled atomic.Bool // the node's socket does not drain (a stalled NIC queue): writes block once the 10-slot buffer is full
 	pumps   sync.WaitGroup
 }
 
@@ -125,6 +126,14 @@ func (h *c49Hub) route(p *udp.Packet) {
 	}
 	dst := h.nodes[p.To]
 	h.mu.Unlock()
+	if dst != nil && dst.stalled.Load() {
+		// a node whose socket is stalled is not offered handshakes: answering one would park its reader in WriteTo and
+		// the scenario wants the reader to keep consuming lighthouse notifications
+		var hd header.H
+		if hd.Parse(p.Data) == nil && hd.Type == header.Handshake {
+			return
+		}
+	}
 	if dst != nil && !dst.stopped.Load() {
 		dst.c.InjectUDPPacket(p)
 	}
@@ -220,6 +229,9 @@ func (w *c49World) startPumps(n *c49Node) {
 	go func() {
 		defer n.pumps.Done()
 		for {
+			for n.stalled.Load() && !n.stopped.Load() {
+				time.Sleep(time.Millisecond)
+			}
 			p := n.c.GetFromUDP(true)
 			if p == nil {
 				return
@@ -240,6 +252,20 @@ func (n *c49Node) sawOnTun(marker string) bool {
 	return false
 }
 
+// c49ParkedPunchFires counts goroutines that are inside the punch scheduler's timer callback, i.e. punch jobs that came due
+// and are waiting for room on the worker queue.
+func c49ParkedPunchFires() int {
+	buf := make([]byte, 4<<20)
+	buf = buf[:runtime.Stack(buf, true)]
+	n := 0
+	for _, g := range strings.Split(string(buf), "\n\n") {
+		if strings.Contains(g, "NewScheduler[") && !strings.Contains(g, ").Run(") {
+			n++
+		}
+	}
+	return n
+}
+
 func c49WaitFor(what string, cond func() bool) error {
 	deadline := time.Now().Add(60 * time.Second)
 	for time.Now().Before(deadline) {
@@ -247,6 +273,10 @@ func c49WaitFor(what string, cond func() bool) error {
 			return nil
 		}
 		time.Sleep(2 * time.Millisecond)
+	}
+	if f := os.Getenv("VERIF_C49_DUMP"); f != "" {
+		buf := make([]byte, 8<<20)
+		_ = os.WriteFile(f, buf[:runtime.Stack(buf, true)], 0o644)
 	}
 	return fmt.Errorf("setup step did not complete within 60s: %s", what)
 }
@@ -345,6 +375,63 @@ func c49Scenarios() []c49Scenario {
 				})
 			}},
 		}},
+		{"punch-queue-full-on-a-stalled-socket", func(w *c49World) {
+			// lh is a lighthouse; a and five queriers q1..q5 report to it. Every querier advertises 10+10 addresses, so each
+			// query for a makes the lighthouse send a a punch notification worth 20 punch jobs.
+			lh := w.add("lh", "10.128.0.128/24", m{"lighthouse": m{"am_lighthouse": true}})
+			client := func(extra m) m {
+				o := m{"lighthouse": m{"hosts": []string{lh.vpn.String()}, "interval": 1},
+					"static_host_map": m{lh.vpn.String(): []string{lh.udp.String()}}}
+				for k, v := range extra {
+					o[k] = v
+				}
+				return o
+			}
+			w.add("a", "10.128.0.1/24", client(m{"punchy": m{"punch": true, "delay": "50ms"}}))
+			for i := 1; i <= 5; i++ {
+				var adv []string
+				for j := 1; j <= 10; j++ {
+					adv = append(adv, fmt.Sprintf("192.0.%d.%d:4242", i, j), fmt.Sprintf("[2001:db8:%d::%d]:4242", i, j))
+				}
+				o := client(nil)
+				o["lighthouse"].(m)["advertise_addrs"] = adv
+				w.add(fmt.Sprintf("q%d", i), fmt.Sprintf("10.128.0.%d/24", 10+i), o)
+			}
+		}, []c49Step{
+			startAll,
+			{"everyone-registered-with-the-lighthouse", func(w *c49World) error {
+				lh := w.nodes[0]
+				return c49WaitFor("lighthouse knows a and 20 addresses of every querier", func() bool {
+					if lh.c.QueryLighthouse(w.nodes[1].vpn) == nil {
+						return false
+					}
+					for _, q := range w.nodes[2:] {
+						cm := lh.c.QueryLighthouse(q.vpn)
+						if cm == nil {
+							return false
+						}
+						reported := 0
+						for _, ce := range *cm {
+							reported += len(ce.Reported)
+						}
+						if reported < 20 {
+							return false
+						}
+					}
+					return true
+				})
+			}},
+			{"punch-queue-full", func(w *c49World) error {
+				a := w.nodes[1]
+				a.stalled.Store(true)
+				for _, q := range w.nodes[2:] {
+					tun(q, a, "PUNCH-ME")
+				}
+				// 10 punches fit the socket buffer, 1 is held by the worker, 64 wait on the queue; everything beyond that is a
+				// timer callback waiting for room
+				return c49WaitFor("punch jobs waiting for room on a's full punch queue", func() bool { return c49ParkedPunchFires() >= 3 })
+			}},
+		}},
 		{"reload-and-queued-lighthouse-work", func(w *c49World) {
 			// a reports to a lighthouse that never answers; packets to unknown peers queue lighthouse queries and handshakes
 			a := w.add("a", "10.128.0.1/24", m{"lighthouse": m{"hosts": []string{"10.128.0.250"}, "interval": 1},
@@ -392,7 +479,7 @@ func TestVerifC49(t *testing.T) {
 	outcomes := map[string]int64{}
 	scenarios := c49Scenarios()
 	if !c.Thorough() {
-		scenarios = scenarios[:3]
+		scenarios = scenarios[:4]
 	}
 	for _, sc := range scenarios {
 		// the number of nodes is only known after build: do a dry build to enumerate (k, n)
@@ -495,6 +582,9 @@ func TestVerifC49(t *testing.T) {
 					for _, ln := range strings.Split(msg, "\n") {
 						if strings.Contains(ln, "github.com/slackhq/nebula") && !strings.Contains(ln, "zz_verif") {
 							top = strings.TrimSpace(strings.Split(ln, "(")[0])
+							if i := strings.Index(top, "with "); i >= 0 { // goleak's header line: drop the goroutine number
+								top = strings.TrimSuffix(strings.TrimSpace(top[i+5:]), " on top of the stack:")
+							}
 							break
 						}
 					}
